@@ -4,7 +4,9 @@ import (
 	"context"
 	"errors"
 	"fmt"
+	"strings"
 	"sync"
+	"sync/atomic"
 	"testing"
 	"time"
 
@@ -42,8 +44,63 @@ type MOp struct {
 	X int    `json:"x,omitempty"` // meter: slot; inst/add: instrument id; collect/rshutdown: reader index
 	Y int    `json:"y,omitempty"` // inst: instrument kind (instNames)
 	M int    `json:"m,omitempty"` // inst: meter slot of the goroutine (an unfilled slot calls Meter() now), -1 = the meter obtained at construction
-	C int    `json:"c,omitempty"` // collect/flush/shutdown/rshutdown/add: context of the call, 0 live, -1 already cancelled, -2 deadline already expired
+	C int    `json:"c,omitempty"` // collect/flush/shutdown/rshutdown/add: context of the call, 0 live, -1 already cancelled, -2 deadline already expired, > 0 (not add) deadline in C ms
 	P int    `json:"p,omitempty"`
+	W int    `json:"w,omitempty"` // shutdown/rshutdown: 1 = first wait (bounded) until a call of the slow collaborator is in flight
+}
+
+// MSlow makes one collaborator of every reader slow: Who 0 none, 1 the
+// external producer (implies Prod), 2 an observable callback (an
+// Int64ObservableGauge created at construction), 3 the exporter's Export.
+// Each such call sleeps Us microseconds and ignores its context.
+type MSlow struct {
+	Who int `json:"who,omitempty"`
+	Us  int `json:"us,omitempty"`
+}
+
+var slowNames = []string{"", "external_producer", "observable_callback", "exporter_export"}
+
+// slowState counts the calls in flight in the slow collaborator.
+type slowState struct {
+	who      int
+	d        time.Duration
+	inflight atomic.Int32
+	entered  atomic.Int32
+	awaited  atomic.Bool
+}
+
+func (s *slowState) call(who int) {
+	if s == nil || s.who != who {
+		return
+	}
+	s.inflight.Add(1)
+	s.entered.Add(1)
+	time.Sleep(s.d)
+	s.inflight.Add(-1)
+}
+
+// await waits (bounded: it only raises the chance of the interesting
+// schedule, nothing is decided by it) until a slow call is in flight; reports
+// whether one is. Only the first await of a run waits.
+func (s *slowState) await(bound time.Duration) bool {
+	if s == nil || s.who == 0 || !s.awaited.CompareAndSwap(false, true) {
+		return false
+	}
+	for t0 := time.Now(); s.inflight.Load() == 0 && time.Since(t0) < bound; {
+		time.Sleep(50 * time.Microsecond)
+	}
+	return s.inflight.Load() > 0
+}
+
+// settle waits (bounded) until no slow call is in flight any more.
+func (s *slowState) settle() {
+	if s == nil || s.who == 0 {
+		return
+	}
+	for t0 := time.Now(); s.inflight.Load() > 0 && time.Since(t0) < 10*time.Second; {
+		time.Sleep(200 * time.Microsecond)
+	}
+	time.Sleep(2 * time.Millisecond)
 }
 
 // MProg is a metric program.
@@ -53,6 +110,11 @@ type MProg struct {
 	Post    []MOp   `json:"post,omitempty"`
 	Runs    int     `json:"runs,omitempty"`
 	Prod    int     `json:"prod,omitempty"` // 1: every reader is built WithProducer(a recording external producer)
+	Slow    MSlow   `json:"slow"`
+	// TmoMs != 0: every PeriodicReader is built WithTimeout(TmoMs ms) (the
+	// bound of one collect + export and of a Shutdown / ForceFlush whose
+	// context has no deadline); <= 0 is documented to keep the default.
+	TmoMs int `json:"tmo_ms,omitempty"`
 }
 
 // ---------------------------------------------------------------------
@@ -60,8 +122,10 @@ type MProg struct {
 
 type rsd struct {
 	ival
-	Live bool
-	Err  error
+	InFlight bool   // a call of the slow collaborator was in flight when Shutdown was called
+	Live     bool   // the context was live and had no deadline
+	Ctx      string // rendering of the context's state at the call
+	Err      error
 }
 
 // readerRec observes one reader: its Shutdown calls (whoever makes them) and
@@ -72,6 +136,7 @@ type readerRec struct {
 	shutdowns []rsd
 	sel       []int64
 	produced  []int64 // calls of the external producer
+	slow      *slowState
 }
 
 // Produce makes a readerRec the external metric producer of its reader.
@@ -79,6 +144,7 @@ func (r *readerRec) Produce(context.Context) ([]metricdata.ScopeMetrics, error) 
 	r.mu.Lock()
 	r.produced = append(r.produced, r.clock.Tick())
 	r.mu.Unlock()
+	r.slow.call(1)
 	return nil, nil
 }
 
@@ -95,7 +161,15 @@ func (r *readerRec) selected() {
 }
 
 func (r *readerRec) shutdown(ctx context.Context, inner func(context.Context) error) error {
-	rec := rsd{Live: ctx.Err() == nil}
+	_, deadline := ctx.Deadline()
+	rec := rsd{Live: ctx.Err() == nil && !deadline, Ctx: "live"}
+	switch {
+	case ctx.Err() != nil:
+		rec.Ctx = ctx.Err().Error()
+	case deadline:
+		rec.Ctx = "deadline ahead"
+	}
+	rec.InFlight = r.slow != nil && r.slow.inflight.Load() > 0
 	rec.Enter = r.clock.Tick()
 	err := inner(ctx)
 	rec.Err = err
@@ -162,6 +236,7 @@ func (e *recMetricExp) Export(context.Context, *metricdata.ResourceMetrics) erro
 	e.mu.Lock()
 	e.exports = append(e.exports, e.clock.Tick())
 	e.mu.Unlock()
+	e.rec.slow.call(3)
 	if e.fail {
 		return errBackendDown
 	}
@@ -194,6 +269,8 @@ type mreader struct {
 }
 
 type mhist struct {
+	slow    *slowState
+	awaited int // shutdown ops that found a slow call in flight
 	p       MProg
 	readers []*mreader
 	pre     []callRec
@@ -213,7 +290,8 @@ func (p MProg) eachOp(fn func(g, i int, op MOp)) {
 }
 
 func validM(p MProg) bool {
-	ok := len(p.Readers) <= 4 && len(p.Gs) <= 8
+	ok := len(p.Readers) <= 4 && len(p.Gs) <= 8 && p.Slow.Who >= 0 && p.Slow.Who <= 3 && p.Slow.Us >= 0 && p.Slow.Us <= 20000 &&
+		(p.Slow.Who != 1 || p.Prod != 0) && p.TmoMs >= -1 && p.TmoMs <= 60000
 	for _, k := range p.Readers {
 		if k < 0 || k >= rKinds {
 			ok = false
@@ -243,6 +321,9 @@ func validM(p MProg) bool {
 		default:
 			ok = false
 		}
+		if op.C > 50 || op.C > 0 && (op.K == "add" || op.K == "inst" || op.K == "meter") {
+			ok = false
+		}
 	})
 	return ok
 }
@@ -252,8 +333,10 @@ func execMetric(p MProg) (*mhist, func()) {
 	clock := &vk.Clock{}
 	otel.SetErrorHandler(&vk.ErrCapture{})
 	var opts []sdkmetric.Option
+	slow := &slowState{who: p.Slow.Who, d: time.Duration(p.Slow.Us) * time.Microsecond}
+	h.slow = slow
 	for _, k := range p.Readers {
-		mr := &mreader{kind: k, rec: &readerRec{clock: clock}}
+		mr := &mreader{kind: k, rec: &readerRec{clock: clock, slow: slow}}
 		rec := mr.rec
 		switch k {
 		case rManual, rManualOrphan:
@@ -280,6 +363,9 @@ func execMetric(p MProg) (*mhist, func()) {
 			if p.Prod != 0 {
 				popts = append(popts, sdkmetric.WithProducer(rec))
 			}
+			if p.TmoMs != 0 {
+				popts = append(popts, sdkmetric.WithTimeout(time.Duration(p.TmoMs)*time.Millisecond))
+			}
 			mr.r = &periodicW{sdkmetric.NewPeriodicReader(mr.exp, popts...), rec}
 		}
 		h.readers = append(h.readers, mr)
@@ -289,6 +375,20 @@ func execMetric(p MProg) (*mhist, func()) {
 	}
 	mp := sdkmetric.NewMeterProvider(opts...)
 	base := mp.Meter("base")
+	if slow.who == 2 {
+		_, _ = base.Int64ObservableGauge("slow", metric.WithInt64Callback(func(_ context.Context, o metric.Int64Observer) error {
+			slow.call(2)
+			o.Observe(1)
+			return nil
+		}))
+	}
+	var awaited atomic.Int32
+	awaitBound := 2 * time.Millisecond // nothing ticks: only another goroutine can have a collection in flight
+	for _, k := range p.Readers {
+		if k == rPeriodicMs {
+			awaitBound = 10 * time.Millisecond
+		}
+	}
 	maxInst := -1
 	p.eachOp(func(_, _ int, op MOp) {
 		if (op.K == "inst" || op.K == "add") && op.X > maxInst {
@@ -304,6 +404,9 @@ func execMetric(p MProg) (*mhist, func()) {
 	}
 	do := func(op MOp, rec *callRec, slots *[4]handle) {
 		rec.K, rec.X, rec.T, rec.C = op.K, op.X, op.M, op.C
+		if op.W != 0 && (op.K == "shutdown" || op.K == "rshutdown") && slow.await(awaitBound) {
+			awaited.Add(1)
+		}
 		ctx := mkCtx(op.C)
 		rec.Start = clock.Tick()
 		switch op.K {
@@ -369,6 +472,9 @@ func execMetric(p MProg) (*mhist, func()) {
 			break
 		}
 	}
+	// a collection that (wrongly) outlived a Shutdown call gets the time to reach the exporter
+	slow.settle()
+	h.awaited = int(awaited.Load())
 	return h, func() {
 		_ = mp.Shutdown(context.Background())
 		for _, r := range h.readers {
@@ -446,7 +552,7 @@ func (h *mhist) render() []string {
 		name := fmt.Sprintf("reader %d %s", i, readerNames[r.kind])
 		sd, sel := r.rec.snapshot()
 		for _, s := range sd {
-			out = append(out, fmt.Sprintf("t=%d..%d   %s: Shutdown(live ctx=%v) -> %v", s.Enter, s.Exit, name, s.Live, s.Err))
+			out = append(out, fmt.Sprintf("t=%d..%d   %s: Shutdown(ctx: %s) -> %v", s.Enter, s.Exit, name, s.Ctx, s.Err))
 		}
 		for _, s := range sel {
 			out = append(out, fmt.Sprintf("t=%d   %s: aggregation/temporality selector consulted", s, name))
@@ -499,6 +605,13 @@ func oracleMetric(h *mhist) ([]vk.Violation, map[string]bool) {
 	if !down {
 		d = never
 	}
+	// dAny = the first return of any provider Shutdown call (any context, any result)
+	dAny := never
+	for _, c := range calls {
+		if c.Done && c.K == "shutdown" && c.End < dAny {
+			dAny = c.End
+		}
+	}
 
 	type rstate struct {
 		sd   []rsd
@@ -533,6 +646,17 @@ func oracleMetric(h *mhist) ([]vk.Violation, map[string]bool) {
 			}
 		}
 		rs[i] = st
+		for _, s := range st.sd {
+			if s.InFlight && !isReaderShutdown(s.Err) && r.exp != nil {
+				cl["periodic_reader_shutdown_with_slow_call_in_flight:ctx_"+strings.ReplaceAll(s.Ctx, " ", "_")] = true
+			}
+		}
+		var anyCall rsd // the Shutdown call on this reader that returned first
+		for _, s := range st.sd {
+			if s.Exit == st.any0 {
+				anyCall = s
+			}
+		}
 		name := fmt.Sprintf("reader %d (%s)", i, readerNames[r.kind])
 		if performed > 1 {
 			bad("shutdown_twice", "%s: %d Shutdown calls did not return ErrReaderShutdown, i.e. the reader was shut down more than once", name, performed)
@@ -559,12 +683,20 @@ func oracleMetric(h *mhist) ([]vk.Violation, map[string]bool) {
 					break
 				}
 			}
+			// "After Shutdown has returned ... nothing more is exported": no
+			// Export call begins once ANY Shutdown call on the reader, or on the
+			// provider it is registered with, has returned - whatever context
+			// that call was given and whatever it returned (see the package
+			// comment).
 			for _, x := range ex {
-				if x > st.dr {
-					bad("export_after_shutdown", "the exporter of %s received an Export call at t=%d, after the reader's Shutdown had returned (t=%d)", name, x, st.dr)
-				}
-				if x > d {
+				switch {
+				case x > st.any0:
+					bad("export_after_shutdown", "the exporter of %s received an Export call at t=%d, after a Shutdown call on the reader (ctx: %s) had returned %v at t=%d", name, x, anyCall.Ctx, anyCall.Err, st.any0)
+					cl["export_after_done_context_shutdown"] = cl["export_after_done_context_shutdown"] || !anyCall.Live
+				case x > d:
 					bad("export_after_shutdown", "the exporter of %s received an Export call at t=%d, after the provider's Shutdown had returned (t=%d)", name, x, d)
+				case x > dAny && !orphan(r.kind):
+					bad("export_after_shutdown", "the exporter of %s received an Export call at t=%d, after a Shutdown call on the provider had returned (t=%d)", name, x, dAny)
 				}
 			}
 			if len(ex) > 0 {
@@ -614,7 +746,11 @@ func oracleMetric(h *mhist) ([]vk.Violation, map[string]bool) {
 		case "flush", "shutdown":
 			if after {
 				cl[c.K+"_after_shutdown"] = true
-				if !okAfterDown(c.Err, c.C != 0, sdkmetric.ErrReaderShutdown) {
+				// a reader timeout of a few ms (WithTimeout) bounds a ForceFlush
+				// whose context has no deadline: it may expire before the call
+				// notices that the reader is down
+				tinyTimeout := c.K == "flush" && h.p.TmoMs > 0 && h.p.TmoMs < 1000
+				if !okAfterDown(c.Err, c.C != 0 || tinyTimeout, sdkmetric.ErrReaderShutdown) {
 					bad("call_after_shutdown_failed", "%s after the provider's Shutdown had returned (t=%d): %v, documented: nil or ErrReaderShutdown", c, d, c.Err)
 				}
 			}
@@ -639,6 +775,10 @@ func oracleMetric(h *mhist) ([]vk.Violation, map[string]bool) {
 	}
 	cl["provider_shut_down"] = down
 	cl["telemetry_after_shutdown"] = telemetryAfter
+	if h.slow != nil && h.slow.who != 0 && h.slow.entered.Load() > 0 {
+		cl["slow_"+slowNames[h.slow.who]+"_called"] = true
+	}
+	cl["shutdown_op_awaited_slow_call_in_flight"] = h.awaited > 0
 	return vs, cl
 }
 
@@ -672,9 +812,12 @@ func genRawMOp(conc bool) *rapid.Generator[MOp] {
 			op.C = rapid.SampledFrom([]int{0, 0, 0, 0, -1, -2}).Draw(t, "ctx")
 		case "collect", "rshutdown":
 			op.X = rapid.IntRange(0, 3).Draw(t, "reader")
-			op.C = rapid.SampledFrom([]int{0, 0, 0, 0, 0, -1, -2}).Draw(t, "ctx")
+			op.C = rapid.SampledFrom([]int{0, 0, 0, 0, 0, -1, -2, 1}).Draw(t, "ctx")
 		case "flush", "shutdown":
-			op.C = rapid.SampledFrom([]int{0, 0, 0, 0, -1, -1, -2}).Draw(t, "ctx")
+			op.C = rapid.SampledFrom([]int{0, 0, 0, 0, -1, -1, -2, 1, 2}).Draw(t, "ctx")
+		}
+		if op.K == "shutdown" || op.K == "rshutdown" {
+			op.W = rapid.IntRange(0, 1).Draw(t, "await")
 		}
 		if conc {
 			op.P = rapid.IntRange(0, 3).Draw(t, "p")
@@ -684,11 +827,20 @@ func genRawMOp(conc bool) *rapid.Generator[MOp] {
 }
 
 func normaliseM(p *MProg) {
+	if len(p.Readers) == 0 || p.Slow.Who == 0 {
+		p.Slow = MSlow{}
+	}
+	if p.Slow.Who == 1 {
+		p.Prod = 1
+	}
 	next := 0
 	section := func(ops []MOp) {
 		var mine []int
 		for i := range ops {
 			op := &ops[i]
+			if p.Slow.Who == 0 {
+				op.W = 0
+			}
 			switch op.K {
 			case "add":
 				if len(mine) == 0 {
@@ -725,8 +877,23 @@ func genReaders(t *rapid.T) []int {
 
 func genProd(t *rapid.T) int { return rapid.SampledFrom([]int{0, 0, 1}).Draw(t, "external_producer") }
 
+// genSlow draws the slow collaborator (none most of the time).
+// genTmo draws the WithTimeout option of the periodic readers: unset most of
+// the time, else negative (ignored), tiny or the default spelled out.
+func genTmo(t *rapid.T) int {
+	return rapid.SampledFrom([]int{0, 0, 0, 0, -1, 1, 1, 2, 30000}).Draw(t, "reader_timeout_ms")
+}
+
+func genSlow(t *rapid.T) MSlow {
+	s := MSlow{Who: rapid.SampledFrom([]int{0, 0, 0, 0, 0, 0, 1, 1, 2, 3}).Draw(t, "slow_who")}
+	if s.Who != 0 {
+		s.Us = rapid.SampledFrom([]int{300, 1000, 3000, 5000}).Draw(t, "slow_us")
+	}
+	return s
+}
+
 func genMetricSeq(t *rapid.T) MProg {
-	p := MProg{Readers: genReaders(t), Prod: genProd(t)}
+	p := MProg{Readers: genReaders(t), Prod: genProd(t), Slow: genSlow(t), TmoMs: genTmo(t)}
 	p.Gs = [][]MOp{genChunked(t, genRawMOp(false), 15)}
 	normaliseM(&p)
 	return p
@@ -750,6 +917,17 @@ func metricInfo(p MProg, cl map[string]bool) vk.Info {
 		}
 	}
 	info.ClassIf(p.Prod != 0 && len(p.Readers) > 0, "readers_with_external_producer")
+	periodic := false
+	for _, k := range p.Readers {
+		periodic = periodic || k != rManual && k != rManualOrphan
+	}
+	info.ClassIf(periodic && p.TmoMs > 0 && p.TmoMs <= 2, "periodic_reader_timeout_tiny")
+	info.ClassIf(periodic && p.TmoMs > 0 && p.TmoMs <= 2 && p.Slow.Who != 0, "periodic_reader_timeout_tiny_and_slow_collaborator")
+	info.ClassIf(periodic && p.TmoMs != 0, "periodic_reader_WithTimeout")
+	info.ClassIf(p.Slow.Who != 0, "slow_collaborator:"+slowNames[p.Slow.Who%len(slowNames)])
+	p.eachOp(func(_, _ int, op MOp) {
+		info.ClassIf(op.C > 0 && (op.K == "shutdown" || op.K == "rshutdown"), "shutdown_with_short_deadline")
+	})
 	p.eachOp(func(_, _ int, op MOp) {
 		if op.K == "inst" {
 			info.Class("instrument:" + instNames[op.Y])
@@ -776,7 +954,7 @@ func runMetricSeq(p MProg) ([]vk.Violation, vk.Info) {
 func TestMetricLifecycle(t *testing.T) {
 	vk.Run(t, vk.Spec[MProg]{
 		Property: "C15", Check: "metric_lifecycle",
-		Rule: "generated op lists (1-60 ops: Meter / create Int64Counter / Add / reader.Collect / provider ForceFlush / provider Shutdown / reader.Shutdown directly, with live or already-cancelled contexts, repeated) on a MeterProvider with 0-3 readers drawn from ManualReader, PeriodicReader(recording exporter, 1h), PeriodicReader(recording exporter, 1ms), PeriodicReader(failing exporter) and a ManualReader / PeriodicReader that is NOT registered with the provider, optionally all built WithProducer(recording producer); six instrument kinds (Add and Record); contexts live, cancelled or past their deadline (also for Add / Record); " +
+		Rule: "generated op lists (1-60 ops: Meter / create Int64Counter / Add / reader.Collect / provider ForceFlush / provider Shutdown / reader.Shutdown directly, with live or already-cancelled contexts, repeated) on a MeterProvider with 0-3 readers drawn from ManualReader, PeriodicReader(recording exporter, 1h), PeriodicReader(recording exporter, 1ms), PeriodicReader(failing exporter) and a ManualReader / PeriodicReader that is NOT registered with the provider, optionally all built WithProducer(recording producer) and WithTimeout(unset / negative / 1-2 ms / 30 s); optionally one slow collaborator that ignores cancellation (external producer, observable callback or the exporter's Export, 0.3-5 ms per call); six instrument kinds (Add and Record); contexts live, cancelled, past their deadline (also for Add / Record) or with a deadline 1-2 ms ahead; the first shutdown op may first wait until a slow call is in flight; " +
 			"non-trivial = at least one registered reader, a provider Shutdown with a live context returned nil/ErrReaderShutdown and an Add / instrument creation / Collect follows it; distinct = distinct case encodings",
 		Quick: 3000, Thorough: 40000,
 		Gen: genMetricSeq, Run: runMetricSeq,
